@@ -241,3 +241,99 @@ func c16(p Params) func() {
 		}
 	}
 }
+
+func init() { Sched["c16_two"] = c16Two }
+
+// c16Two: two connections authenticate at the same server at the same time, one with the valid token and one with
+// a wrong token of the same length; the checker does some work (a scheduling point) between receiving the token and
+// comparing it. Token codec json or plain (the auth body goes through the ordinary body codecs and pooled buffers).
+// The wrong-token connection must be rejected whatever the interleaving: no handler, closed, not listed.
+func c16Two(p Params) func() {
+	proto := p.Get("proto", "raw")
+	cd := p.Get("codec", "plain")
+	return func() {
+		begin()
+		const good, evil = "tokenGOOD", "tokenEVIL"
+		checkerRuns := 0
+		checker := auth.NewCheckerPlugin(func(sess auth.Session, recv auth.RecvOnce) (interface{}, *erpc.Status) {
+			checkerRuns++
+			var token string
+			if st := recv(&token); !st.OK() {
+				return nil, st
+			}
+			vsched.Yield() // e.g. a lookup of the account
+			if token != good {
+				return nil, erpc.NewStatus(erpc.CodeUnauthorized, "bad token", "")
+			}
+			return "welcome", nil
+		})
+		handled := map[string]int{}
+		srv := world.NewPeer("json", checker)
+		hc := srv.RouteCallFunc(func(ctx erpc.CallCtx, arg *string) (*string, *erpc.Status) {
+			handled[*arg]++
+			r := "ok"
+			return &r, nil
+		})
+		body := func(tok string) (byte, []byte) {
+			if cd == "plain" {
+				return 's', []byte(tok)
+			}
+			return 'j', []byte(`"` + tok + `"`)
+		}
+		type conn struct {
+			name    string
+			raw, sc *vnet.Conn
+			sess    erpc.Session
+			st      *erpc.Status
+		}
+		var cs []*conn
+		var ths []*vsched.Thread
+		for _, c := range []struct{ name, tok string }{{"evil", evil}, {"good", good}} {
+			c := c
+			x := &conn{name: c.name}
+			x.raw, x.sc = vnet.Pipe(vnet.NewAddr(), vnet.NewAddr())
+			cs = append(cs, x)
+			ths = append(ths, world.Go("acceptor_"+c.name, func() { x.sess, x.st = srv.ServeConn(x.sc, world.Proto(proto)) }))
+			ths = append(ths, world.Go("client_"+c.name, func() {
+				id, b := body(c.tok)
+				fb, _ := world.EncodeFrame(proto, world.Frame{Seq: 1, Mtype: erpc.TypeAuthCall, Codec: id, Body: b})
+				x.raw.Write(fb)
+				world.ReadFrameOf(x.raw, proto) // the verdict (or end of stream)
+				ab, _ := world.EncodeFrame(proto, world.Frame{Seq: 10, Mtype: erpc.TypeCall, Method: hc, Codec: 'j', Body: []byte(`"from_` + c.name + `"`)})
+				x.raw.Write(ab)
+			}))
+		}
+		joinAll(ths)
+		vsched.Quiesce()
+		ev, gd := cs[0], cs[1]
+		if checkerRuns != 2 {
+			vsched.Failf("the checker ran %d times for two connections", checkerRuns)
+		}
+		if ev.st.OK() || ev.sess != nil {
+			vsched.Failf("the connection that presented a wrong token was accepted (codec %s)", cd)
+		}
+		if handled["from_evil"] != 0 {
+			vsched.Failf("a handler ran for the connection that presented a wrong token (codec %s)", cd)
+		}
+		if !ev.sc.IsClosed() {
+			vsched.Failf("the rejected connection was not closed by the server")
+		}
+		if !gd.st.OK() || gd.sess == nil {
+			vsched.Failf("the connection with the valid token was rejected: %s (codec %s)", world.StatStr(gd.st), cd)
+		}
+		if handled["from_good"] != 1 {
+			vsched.Failf("the authenticated connection's call was handled %d times", handled["from_good"])
+		}
+		if n := srv.CountSession(); n != 1 {
+			vsched.Failf("%d sessions listed, exactly one connection authenticated (index %v)", n, sessionsOf(srv))
+		}
+		for _, x := range cs {
+			x.raw.Close()
+		}
+		srv.Close()
+		vsched.Quiesce()
+		if l := vsched.Live(); l != 0 {
+			vsched.Failf("%d goroutines still blocked after close: %s", l, vsched.BlockedDesc())
+		}
+	}
+}
